@@ -1,14 +1,1033 @@
-//! C12 — stub, to be implemented.
+//! C12 — traffic only goes to backends that are eligible right now.
+//!
+//! modelsim: seeded operation histories against the public `sozu_lib::backends::BackendMap` (the
+//! object the worker's `Server` applies AddBackend / RemoveBackend / AddCluster to and every session
+//! asks for a backend), under the virtual clock (back-off windows are crossed by `w.now += ..`) and
+//! seeded entropy (random policies, back-off jitter), compared after every operation with a small
+//! reference model written from the property statement and the documentation.
+//!
+//! Model: per backend instance (member of its cluster list or removed, status Normal/Closing/Closed,
+//! healthy + success/failure streaks, retry state {tries, last failure, drawn wait}, backup, cookie value,
+//! weight, open connections, active requests). eligible = member /\ Normal /\ healthy /\ now - last failure >= wait.
+//! Allowed set of a selection = eligible primaries, else eligible backups, else (documented fail-open)
+//! Normal members outside their back-off regardless of health, else nothing. The drawn back-off is the only
+//! random quantity; it is read from the policy's `Debug` text (and range-checked), never recomputed.
+//!
+//! Violation classes (key): ineligible_selected (lb|<policy>|<reason> or cookie|<reason>),
+//! no_backend_despite_eligible (<policy>|<regime>), sticky_ignored, affinity_moved (<policy>|<kind>[|trigger]),
+//! counter_mismatch / counter_wrapped / counter_not_zero_at_end (<field>), lifecycle_mismatch, health_mismatch,
+//! retry_mismatch, backoff_out_of_range, predicate_mismatch (can_open / is_available against the model's
+//! predicate), membership_mismatch, panic. A run stops at the first operation that yields a violation.
 #![allow(dead_code)]
+use std::cell::RefCell;
+use std::collections::BTreeMap;
+use std::net::SocketAddr;
+use std::rc::{Rc, Weak};
+
+use serde::{Deserialize, Serialize};
 use serde_json::Value;
+use sozu_command_lib::proto::command::{LoadBalancingAlgorithms, LoadBalancingParams, LoadMetric};
+use sozu_lib::backends::{Backend, BackendMap, BackendStatus};
+use sozu_lib::retry::RetryPolicy;
+
 use crate::framework::*;
+use crate::prng::{Prng, TraceHash};
+use crate::world::{ConnectMode, SchedCfg, World, MS, SEC};
 
 pub struct C12;
 
+const MAX_TRIES: usize = 6; // Backend::new -> ExponentialBackoffPolicy::new(6) (doc/configure.md: "default 6")
+const POLICIES: [&str; 7] = ["round_robin", "random", "least_loaded", "power_of_two", "hrw", "maglev", "default"];
+
+// ------------------------------------------------------------------------------------------ plan
+
+#[derive(Clone, Debug, Serialize, Deserialize, PartialEq)]
+pub struct Plan {
+    pub seed: u64,
+    pub family: String,
+    /// second octet of the simulated backend addresses (varies the affinity hashes between plans)
+    pub base: u8,
+    /// health-check thresholds of every cluster in this plan
+    pub thr_up: u32,
+    pub thr_down: u32,
+    pub ops: Vec<Op>,
+}
+
+#[derive(Clone, Debug, Serialize, Deserialize, PartialEq)]
+#[serde(tag = "op")]
+pub enum Op {
+    /// AddCluster / policy change: `set_load_balancing_policy_for_cluster` (algo 0..=5, metric 0 = none, 1..=3)
+    Policy { c: u8, algo: u8, metric: u8 },
+    /// AddBackend as `Server::add_backend` applies it (sticky 0 = none; backup 0 = unset, 1 = false, 2 = true)
+    Add { c: u8, id: u8, addr: u8, sticky: u8, weight: Option<i32>, backup: u8 },
+    /// RemoveBackend as `Server::remove_backend` applies it (address keyed)
+    Remove { c: u8, addr: u8 },
+    /// one health-check result as `HealthChecker::record_check_result` applies it (address keyed)
+    Health { c: u8, addr: u8, ok: bool },
+    /// `set_health_check_config(cluster, None)` (AddCluster without a health check)
+    HealthOff { c: u8 },
+    Advance { ms: u64 },
+    /// pure selection; via 0 = `BackendMap::backend_from_cluster_id_with_key`, 1 = `BackendList::next_available_backend_with_key`
+    Select { c: u8, key: Option<u64>, via: u8 },
+    /// pure sticky lookup: `BackendList::find_sticky`
+    Sticky { c: u8, s: u8 },
+    /// session connect: `backend_from_sticky_session` (s > 0) or `backend_from_cluster_id` (s = 0); the
+    /// simulated network answers connect() with EINPROGRESS (net_ok) or a synchronous ENETUNREACH
+    Connect { c: u8, s: u8, net_ok: bool, streams: u8 },
+    /// outcome of a pending connect as `mux` applies it: ok -> failures = 0, retry.succeed(), requests += streams;
+    /// !ok -> failures += 1, retry.fail(), connection closed
+    Outcome { conn: u8, ok: bool },
+    /// a stream starts / ends on an established connection
+    Stream { conn: u8, start: bool },
+    Close { conn: u8 },
+    /// `Backend::set_closing()` on the backend of an open connection (pub API; the worker itself never calls it)
+    SetClosing { conn: u8 },
+}
+
+fn op_name(op: &Op) -> &'static str {
+    match op {
+        Op::Policy { .. } => "policy", Op::Add { .. } => "add", Op::Remove { .. } => "remove", Op::Health { .. } => "health",
+        Op::HealthOff { .. } => "health_off", Op::Advance { .. } => "advance", Op::Select { .. } => "select", Op::Sticky { .. } => "sticky",
+        Op::Connect { .. } => "connect", Op::Outcome { .. } => "outcome", Op::Stream { .. } => "stream", Op::Close { .. } => "close",
+        Op::SetClosing { .. } => "set_closing",
+    }
+}
+
+/// keep every index inside the fixed alphabets (plans may be edited by hand or by shrinking)
+fn normalise(op: &Op) -> Op {
+    let mut o = op.clone();
+    match &mut o {
+        Op::Policy { c, algo, metric } => { *c %= 2; *algo %= 6; *metric %= 4; }
+        Op::Add { c, addr, sticky, backup, .. } => { *c %= 2; *addr %= 4; *sticky %= 3; *backup %= 3; }
+        Op::Remove { c, addr } | Op::Health { c, addr, .. } => { *c %= 2; *addr %= 4; }
+        Op::HealthOff { c } | Op::Select { c, .. } => { *c %= 2; }
+        Op::Sticky { c, s } | Op::Connect { c, s, .. } => { *c %= 2; *s %= 3; }
+        _ => {}
+    }
+    o
+}
+
+fn addr_of(base: u8, a: u8) -> SocketAddr {
+    if a == 3 { format!("[fd00::{:x}]:8443", base as u16 + 1).parse().unwrap() } else { format!("10.{}.0.{}:{}", base, a + 1, 8000 + a as u16).parse().unwrap() }
+}
+fn cluster_name(c: u8) -> String { format!("c{c}") }
+fn sticky_name(s: u8) -> Option<String> { if s == 0 { None } else { Some(format!("s{s}")) } }
+
+pub fn generate(seed: u64, tier: Tier) -> Plan {
+    let mut r = Prng::derive(seed, "c12/plan");
+    let ncl = if r.below(4) == 0 { 2 } else { 1 };
+    let nid = 1 + r.below(4) as u8;
+    let naddr = 1 + r.below(4) as u8;
+    let nst = r.below(3) as u8;
+    let nkeys = 1 + r.below(3) as usize;
+    let keypool = [0u64, 1, 2, 65536, 65537, 65538, u64::MAX, r.next_u64(), r.next_u64()];
+    let keys: Vec<u64> = (0..nkeys).map(|_| *r.pick(&keypool)).collect();
+    let weights: Vec<Option<i32>> = match r.below(4) {
+        0 => vec![None],
+        1 => vec![None, Some(100), Some(1), Some(255)],
+        2 => vec![Some(0), Some(1), Some(50), Some(100)],
+        _ => vec![None, Some(0), Some(-5), Some(i32::MAX), Some(i32::MIN), Some(100)],
+    };
+    let fixed_algo = if r.below(3) > 0 { Some(r.below(6) as u8) } else { None };
+    let max_len = match tier { Tier::Quick => 40, Tier::Thorough => 100 };
+    let len = 4 + r.below(max_len) as usize;
+    // swarm: per-plan operation mix
+    //            policy add rem health hoff adv sel sticky conn outc stream close closing
+    let preset = r.below(4);
+    let mut w: [u64; 13] = match preset {
+        0 => [1, 4, 2, 4, 1, 4, 8, 2, 4, 3, 2, 2, 0],
+        1 => [1, 3, 1, 1, 0, 6, 4, 1, 8, 5, 1, 2, 0], // flaky network: many connects and time steps
+        2 => [2, 5, 4, 2, 1, 2, 8, 3, 3, 2, 1, 2, 1], // churn
+        _ => [1, 3, 2, 5, 1, 3, 6, 4, 3, 2, 3, 3, 1],
+    };
+    for i in 0..13 { if i != 6 && r.below(5) == 0 { w[i] = 0; } }
+    if fixed_algo.is_some() && r.below(2) == 0 { w[0] = 0; }
+    if nst == 0 { w[7] = 0; }
+    let total: u64 = w.iter().sum();
+    let advs = [1u64, 400, 999, 1000, 1001, 2000, 3000, 7000, 15000, 31000, 32000, 63000, 64000];
+    let mut ops = Vec::new();
+    for c in 0..ncl {
+        if r.below(4) > 0 { ops.push(Op::Policy { c, algo: fixed_algo.unwrap_or_else(|| r.below(6) as u8), metric: r.below(4) as u8 }); }
+    }
+    let gen_add = |r: &mut Prng| Op::Add {
+        c: r.below(ncl as u64) as u8, id: r.below(nid as u64) as u8, addr: r.below(naddr as u64) as u8,
+        sticky: if nst == 0 { 0 } else { r.below(nst as u64 + 1) as u8 }, weight: *r.pick(&weights),
+        backup: *r.pick(&[0u8, 0, 1, 2, 2]),
+    };
+    for _ in 0..(1 + r.below(4)) { ops.push(gen_add(&mut r)); }
+    while ops.len() < len {
+        let mut x = r.below(total.max(1));
+        let mut k = 0;
+        while k < 12 && x >= w[k] { x -= w[k]; k += 1; }
+        let c = r.below(ncl as u64) as u8;
+        let op = match k {
+            0 => Op::Policy { c, algo: if r.below(3) == 0 { r.below(6) as u8 } else { fixed_algo.unwrap_or_else(|| r.below(6) as u8) }, metric: r.below(4) as u8 },
+            1 => gen_add(&mut r),
+            2 => Op::Remove { c, addr: r.below(naddr as u64) as u8 },
+            3 => Op::Health { c, addr: r.below(naddr as u64) as u8, ok: r.below(3) == 0 },
+            4 => Op::HealthOff { c },
+            5 => Op::Advance { ms: if preset == 1 && r.below(2) == 0 { *r.pick(&advs[7..]) } else { *r.pick(&advs) } },
+            6 => Op::Select { c, key: if r.below(3) == 0 { None } else { Some(*r.pick(&keys)) }, via: r.below(2) as u8 },
+            7 => Op::Sticky { c, s: 1 + r.below(nst.max(1) as u64) as u8 },
+            8 => Op::Connect { c, s: if nst > 0 && r.below(2) == 0 { 1 + r.below(nst as u64) as u8 } else { 0 }, net_ok: if preset == 1 { r.below(3) == 0 } else { r.below(3) > 0 }, streams: r.below(3) as u8 },
+            9 => Op::Outcome { conn: r.below(4) as u8, ok: if preset == 1 { r.below(4) == 0 } else { r.below(2) == 0 } },
+            10 => Op::Stream { conn: r.below(4) as u8, start: r.below(2) == 0 },
+            11 => Op::Close { conn: r.below(4) as u8 },
+            _ => Op::SetClosing { conn: r.below(4) as u8 },
+        };
+        ops.push(op);
+    }
+    let mut p = Plan { seed, family: String::new(), base: 1 + r.below(3) as u8, thr_up: 1 + r.below(3) as u32, thr_down: 1 + r.below(3) as u32, ops };
+    p.family = family_of(&p);
+    p
+}
+
+fn family_of(p: &Plan) -> String {
+    let mut algos: Vec<u8> = p.ops.iter().filter_map(|o| if let Op::Policy { algo, .. } = o { Some(*algo) } else { None }).collect();
+    algos.sort(); algos.dedup();
+    let base = match algos.len() { 0 => "default".to_string(), 1 => POLICIES[algos[0] as usize % 6].to_string(), _ => "mixed".to_string() };
+    if p.ops.iter().any(|o| matches!(o, Op::SetClosing { .. })) { format!("{base}+closing") } else { base }
+}
+
+pub fn summarize(p: &Plan) -> String {
+    let mut s = format!("{} thr={}/{} ", p.family, p.thr_up, p.thr_down);
+    for o in &p.ops {
+        s += &match o {
+            Op::Policy { c, algo, metric } => format!("P{c}:{}{} ", POLICIES[*algo as usize % 6], if *metric > 0 { format!("/{metric}") } else { String::new() }),
+            Op::Add { c, id, addr, sticky, weight, backup } => format!("+{c}:b{id}@{addr}{}{}{} ", if *sticky > 0 { format!("s{sticky}") } else { String::new() }, weight.map(|w| format!("w{w}")).unwrap_or_default(), if *backup == 2 { "B" } else { "" }),
+            Op::Remove { c, addr } => format!("-{c}:@{addr} "),
+            Op::Health { c, addr, ok } => format!("H{c}:@{addr}{} ", if *ok { "+" } else { "-" }),
+            Op::HealthOff { c } => format!("H{c}:off "),
+            Op::Advance { ms } => format!("T+{ms} "),
+            Op::Select { c, key, via } => format!("sel{via}({c},{}) ", key.map(|k| format!("{k:x}")).unwrap_or("-".into())),
+            Op::Sticky { c, s } => format!("stk({c},s{s}) "),
+            Op::Connect { c, s, net_ok, streams } => format!("conn({c},{}{},{streams}) ", if *s > 0 { format!("s{s},") } else { String::new() }, if *net_ok { "ok" } else { "unreach" }),
+            Op::Outcome { conn, ok } => format!("res({conn},{}) ", if *ok { "up" } else { "fail" }),
+            Op::Stream { conn, start } => format!("str({conn},{}) ", if *start { "+" } else { "-" }),
+            Op::Close { conn } => format!("close({conn}) "),
+            Op::SetClosing { conn } => format!("closing({conn}) "),
+        };
+    }
+    s
+}
+
+// --------------------------------------------------------------------------------- reference model
+
+#[derive(Clone, Copy, PartialEq, Debug)]
+enum St { Normal, Closing, Closed }
+
+#[derive(Clone, Debug)]
+struct MB {
+    cluster: u8,
+    /// currently a member of its cluster's backend list
+    present: bool,
+    id: u8,
+    addr: u8,
+    sticky: u8,
+    weight: Option<i32>,
+    backup: bool,
+    st: St,
+    healthy: bool,
+    succ: u32,
+    fails: u32,
+    tries: usize,
+    last_try: u64,
+    wait_ns: u64,
+    failures: usize,
+    conns: usize,
+    reqs: usize,
+}
+
+impl MB {
+    fn backing_off(&self, now: u64) -> bool { now.saturating_sub(self.last_try) < self.wait_ns }
+    /// the property's predicate: belongs to the cluster, not being removed, not marked unhealthy, not inside its back-off
+    fn eligible(&self, now: u64) -> bool { self.present && self.st == St::Normal && self.healthy && !self.backing_off(now) }
+    fn fail_open_ok(&self, now: u64) -> bool { self.present && self.st == St::Normal && !self.backing_off(now) }
+}
+
+#[derive(Clone, Copy, PartialEq, Debug)]
+enum Regime { Primary, Backup, FailOpen, Nothing }
+impl Regime { fn name(&self) -> &'static str { match self { Regime::Primary => "primary", Regime::Backup => "backup", Regime::FailOpen => "fail_open", Regime::Nothing => "none" } } }
+
+#[derive(Default)]
+struct MC {
+    exists: bool,
+    list: Vec<usize>,
+    /// 0..=5, 6 = never set (BackendList default)
+    algo: u8,
+    /// affinity memo: key -> (full set fingerprint, allowed set fingerprint, winner)
+    memo: BTreeMap<u64, (Vec<(usize, u8, i64)>, Vec<(usize, u8, i64)>, usize)>,
+}
+
+fn allowed(mc: &MC, mbs: &[MB], now: u64) -> (Vec<usize>, Regime) {
+    let p: Vec<usize> = mc.list.iter().copied().filter(|&u| !mbs[u].backup && mbs[u].eligible(now)).collect();
+    if !p.is_empty() { return (p, Regime::Primary); }
+    let b: Vec<usize> = mc.list.iter().copied().filter(|&u| mbs[u].backup && mbs[u].eligible(now)).collect();
+    if !b.is_empty() { return (b, Regime::Backup); }
+    let f: Vec<usize> = mc.list.iter().copied().filter(|&u| mbs[u].fail_open_ok(now)).collect();
+    if !f.is_empty() { return (f, Regime::FailOpen); }
+    (Vec::new(), Regime::Nothing)
+}
+
+enum StickyExp {
+    /// no (qualifying) holder of this cookie value: normal selection
+    Fallback,
+    /// exactly this backend
+    Must(usize),
+    /// several backends share the cookie value (configuration ambiguity): any of `.0`; `.1` = normal selection also acceptable
+    Any(Vec<usize>, bool),
+}
+
+fn sticky_expect(mc: &MC, mbs: &[MB], s: u8, now: u64) -> StickyExp {
+    if s == 0 { return StickyExp::Fallback; }
+    let holders: Vec<usize> = mc.list.iter().copied().filter(|&u| mbs[u].sticky == s).collect();
+    let elig: Vec<usize> = holders.iter().copied().filter(|&u| mbs[u].eligible(now)).collect();
+    if holders.is_empty() || elig.is_empty() { return StickyExp::Fallback; }
+    if holders.len() == 1 { return StickyExp::Must(holders[0]); }
+    let all = elig.len() == holders.len();
+    StickyExp::Any(elig, !all)
+}
+
+fn why_not(mbs: &[MB], c: u8, u: usize, regime: Regime, now: u64) -> &'static str {
+    let b = &mbs[u];
+    if b.cluster != c { return "other_cluster"; }
+    if !b.present { return "removed"; }
+    match b.st { St::Closing => return "closing", St::Closed => return "closed", St::Normal => {} }
+    if b.backing_off(now) { return "in_backoff"; }
+    if !b.healthy && regime != Regime::FailOpen { return "unhealthy"; }
+    if b.backup && regime == Regime::Primary { return "backup_while_primary_qualifies"; }
+    "not_in_allowed_set"
+}
+
+// ------------------------------------------------------------------------------------- execution
+
+#[derive(PartialEq)]
+enum CState { Connecting, Connected }
+struct Conn { uid: usize, rc: Rc<RefCell<Backend>>, state: CState, streams: usize }
+
+struct Exec<'a> {
+    plan: &'a Plan,
+    map: BackendMap,
+    mbs: Vec<MB>,
+    weak: Vec<Weak<RefCell<Backend>>>,
+    mcs: Vec<MC>,
+    conns: Vec<Conn>,
+    now: u64,
+    v: Vec<Violation>,
+    h: TraceHash,
+    probes: BTreeMap<String, u64>,
+    closing_used: bool,
+    judged_with_exclusion: u64,
+    log: Option<Vec<String>>,
+    cur_op: &'static str,
+    ops_done: u64,
+}
+
+fn parse_field(s: &str, name: &str) -> Option<u64> {
+    let i = s.find(name)? + name.len();
+    let d: String = s[i..].chars().take_while(|c| c.is_ascii_digit()).collect();
+    d.parse().ok()
+}
+/// (max_tries, current_tries, last_try ns, wait ns) from the policy's `Debug` text
+fn parse_retry(s: &str) -> Option<(u64, u64, u64, u64)> {
+    let max = parse_field(s, "max_tries: ")?;
+    let cur = parse_field(s, "current_tries: ")?;
+    let sec = parse_field(s, "tv_sec: ")?;
+    let nsec = parse_field(s, "tv_nsec: ")?;
+    let i = s.find("wait: ")? + 6;
+    let rest = &s[i..];
+    let num: String = rest.chars().take_while(|c| c.is_ascii_digit() || *c == '.').collect();
+    let unit: String = rest[num.len()..].chars().take_while(|c| c.is_alphabetic() || *c == 'µ').collect();
+    let f: f64 = num.parse().ok()?;
+    let mult = match unit.as_str() { "ns" => 1.0, "µs" | "us" => 1e3, "ms" => 1e6, "s" => 1e9, _ => return None };
+    Some((max, cur, sec * SEC + nsec, (f * mult).round() as u64))
+}
+
+impl<'a> Exec<'a> {
+    fn probe(&mut self, k: &str) { *self.probes.entry(k.to_string()).or_insert(0) += 1; }
+    fn viol(&mut self, class: &str, key: String, detail: String) {
+        let detail = format!("[after {}{}] {detail}", self.cur_op, if self.closing_used { "; set_closing() was used earlier" } else { "" });
+        if let Some(l) = self.log.as_mut() { l.push(format!("  !! {class} {key}: {detail}")); }
+        if !self.v.iter().any(|x| x.class == class && x.key == key) { self.v.push(Violation::new(class, key, detail)); }
+    }
+    fn policy(&self, c: u8) -> &'static str { POLICIES[self.mcs[c as usize].algo as usize % 7] }
+    fn uid_of(&self, rc: &Rc<RefCell<Backend>>) -> Option<usize> {
+        let p = Rc::as_ptr(rc);
+        self.weak.iter().position(|w| w.as_ptr() == p)
+    }
+    fn descr_b(&self, u: usize) -> String {
+        let b = &self.mbs[u];
+        format!("#{u}(c{} b{}@{} {:?}{}{}{} tries={} wait={}ms since_fail={}ms)", b.cluster, b.id, b.addr, b.st, if b.present { "" } else { " removed" }, if b.healthy { "" } else { " unhealthy" }, if b.backup { " backup" } else { "" }, b.tries, b.wait_ns / MS, (self.now - b.last_try) / MS)
+    }
+    fn set_now(&mut self, now: u64) {
+        self.now = now;
+        crate::world::with_world(|w| w.now = now);
+    }
+
+    // ---- model transitions shared by several operations
+
+    /// `retry_policy.fail()` was just called on backend `u`: update the model, reading the drawn wait from `Debug`
+    fn after_fail(&mut self, u: usize) {
+        let Some(rc) = self.weak[u].upgrade() else { return };
+        let txt = format!("{:?}", rc.borrow().retry_policy);
+        drop(rc);
+        let Some((_max, cur, last, wait)) = parse_retry(&txt) else { self.viol("harness", "retry_debug_unparsed".into(), txt); return };
+        let now = self.now;
+        if self.mbs[u].backing_off(now) {
+            self.probe("fail_ignored_inside_backoff");
+            // state must be untouched (compared in check_retry)
+        } else {
+            let tries = self.mbs[u].tries;
+            let cap_s = std::cmp::max(1u64, 1u64 << tries.min(20));
+            if wait < SEC || wait > cap_s * SEC || wait % SEC != 0 {
+                self.viol("backoff_out_of_range", format!("tries={tries}"), format!("after failure #{} the drawn back-off is {} ms, expected 1..={} s: {txt}", tries + 1, wait / MS, cap_s));
+            }
+            let b = &mut self.mbs[u];
+            b.wait_ns = wait;
+            b.last_try = now;
+            b.tries = (tries + 1).min(MAX_TRIES);
+            self.probe(&format!("backoff_armed_tries_{}", (tries + 1).min(MAX_TRIES)));
+        }
+        self.check_retry(u, cur, last, wait, &txt);
+    }
+    fn after_succeed(&mut self, u: usize) {
+        let now = self.now;
+        let b = &mut self.mbs[u];
+        if b.tries > 0 { *self.probes.entry("retry_reset_by_success".into()).or_insert(0) += 1; }
+        b.tries = 0; b.wait_ns = 0; b.last_try = now;
+        self.check_retry_now(u);
+    }
+    fn check_retry_now(&mut self, u: usize) {
+        let Some(rc) = self.weak[u].upgrade() else { return };
+        let txt = format!("{:?}", rc.borrow().retry_policy);
+        drop(rc);
+        let Some((_m, cur, last, wait)) = parse_retry(&txt) else { self.viol("harness", "retry_debug_unparsed".into(), txt); return };
+        self.check_retry(u, cur, last, wait, &txt);
+    }
+    fn check_retry(&mut self, u: usize, cur: u64, last: u64, wait: u64, txt: &str) {
+        let b = self.mbs[u].clone();
+        if cur as usize != b.tries { self.viol("retry_mismatch", "current_tries".to_string(), format!("{}: model tries {} but {txt}", self.descr_b(u), b.tries)); }
+        if wait != b.wait_ns { self.viol("retry_mismatch", "wait".to_string(), format!("{}: model wait {} ms but {txt}", self.descr_b(u), b.wait_ns / MS)); }
+        if last != b.last_try { self.viol("retry_mismatch", "last_try".to_string(), format!("{}: model last_try {} ns but {txt}", self.descr_b(u), b.last_try)); }
+    }
+
+    /// judge a backend chosen by load balancing (not by cookie)
+    fn judge_lb(&mut self, c: u8, via: &str, key: Option<u64>, got: Option<usize>, untracked: bool) {
+        let now = self.now;
+        let (al, regime) = allowed(&self.mcs[c as usize], &self.mbs, now);
+        let pol = self.policy(c);
+        let members = self.mcs[c as usize].list.len();
+        if al.len() < members { self.judged_with_exclusion += 1; }
+        self.probe(&format!("selection_regime_{}", regime.name()));
+        self.h.mix(got.map(|u| u as u64 + 1).unwrap_or(0));
+        if untracked {
+            self.viol("ineligible_selected", format!("lb|{pol}|unknown_backend"), "selection returned a backend object that was never added through add_backend".into());
+            return;
+        }
+        match got {
+            None => {
+                if !al.is_empty() {
+                    let d = format!("no backend returned although {} qualify ({}): {}", al.len(), regime.name(), al.iter().map(|&u| self.descr_b(u)).collect::<Vec<_>>().join(", "));
+                    self.viol("no_backend_despite_eligible", format!("{pol}|{}", regime.name()), format!("{via}: {d}"));
+                }
+            }
+            Some(u) => {
+                if !al.contains(&u) {
+                    let why = why_not(&self.mbs, c, u, regime, now);
+                    let d = format!("selected {} but the allowed set ({}) is [{}]", self.descr_b(u), regime.name(), al.iter().map(|&x| self.descr_b(x)).collect::<Vec<_>>().join(", "));
+                    self.viol("ineligible_selected", format!("lb|{pol}|{why}"), format!("{via}: {d}"));
+                    return;
+                }
+                if regime == Regime::Backup { self.probe("backup_used"); }
+                // affinity: same key -> same backend while the eligible set is unchanged
+                let algo = self.mcs[c as usize].algo;
+                if let (Some(k), true) = (key, algo == 4 || algo == 5) {
+                    let fp = |u: &usize| (*u, self.mbs[*u].addr, self.mbs[*u].weight.map(|w| w as i64).unwrap_or(i64::MIN));
+                    let full: Vec<_> = self.mcs[c as usize].list.iter().map(fp).collect();
+                    let alf: Vec<_> = al.iter().map(fp).collect();
+                    let prev = self.mcs[c as usize].memo.get(&k).cloned();
+                    if let Some((pfull, pal, pw)) = prev {
+                        if pal == alf && (algo == 4 || pfull == full) {
+                            self.probe("affinity_rechecked_same_set");
+                            if pw != u {
+                                let d = format!("key {k:#x}: eligible set unchanged [{}] but the key moved from {} to {}", al.iter().map(|&x| format!("#{x}")).collect::<Vec<_>>().join(","), self.descr_b(pw), self.descr_b(u));
+                                // trigger feature (plan level): a member whose weight share is below one slot of the
+                                // documented 65537-slot Maglev table (weights are documented as clamped to >= 1, default 100)
+                                let ws: Vec<u128> = self.mcs[c as usize].list.iter().map(|&x| self.mbs[x].weight.unwrap_or(100).max(1) as u128).collect();
+                                let total: u128 = ws.iter().sum::<u128>().max(1);
+                                let starved = algo == 5 && ws.iter().any(|w| w * 65537 / total == 0);
+                                self.viol("affinity_moved", format!("{pol}|same_eligible_set{}", if starved { "|weight_share_below_one_table_slot" } else { "" }), d);
+                            }
+                        } else if pal == alf && pw != u {
+                            // Maglev: table rebuilt because an ineligible member was added/removed/re-weighted (documented: table tracks the full set)
+                            self.probe("maglev_key_moved_on_ineligible_member_change");
+                        } else if algo == 4 && alf.iter().all(|x| pal.contains(x)) && alf.iter().any(|x| x.0 == pw) {
+                            // HRW minimal disruption: removing non-winners cannot change the winner
+                            self.probe("affinity_rechecked_subset");
+                            if pw != u {
+                                let d = format!("key {k:#x}: the eligible set only lost non-winning members but the key moved from {} to {}", self.descr_b(pw), self.descr_b(u));
+                                self.viol("affinity_moved", format!("{pol}|subset_without_winner_loss"), d);
+                            }
+                        }
+                    }
+                    self.mcs[c as usize].memo.insert(k, (full, alf, u));
+                }
+            }
+        }
+    }
+
+    fn new_instance(&mut self, c: u8, id: u8, addr: u8, sticky: u8, weight: Option<i32>, backup: bool) -> usize {
+        let now = self.now;
+        self.mbs.push(MB { cluster: c, present: true, id, addr, sticky, weight, backup, st: St::Normal, healthy: true, succ: 0, fails: 0, tries: 0, last_try: now, wait_ns: 0, failures: 0, conns: 0, reqs: 0 });
+        self.mbs.len() - 1
+    }
+
+    fn first_at(&self, c: u8, addr: u8) -> Option<usize> {
+        self.mcs[c as usize].list.iter().copied().find(|&u| self.mbs[u].addr == addr)
+    }
+
+    // ---- one operation
+
+    fn step(&mut self, op: &Op) {
+        self.cur_op = op_name(op);
+        self.probe(&format!("op_{}", self.cur_op));
+        self.h.mix_bytes(format!("{op:?}").as_bytes());
+        let base = self.plan.base;
+        match op.clone() {
+            Op::Policy { c, algo, metric } => {
+                let a = match algo % 6 { 0 => LoadBalancingAlgorithms::RoundRobin, 1 => LoadBalancingAlgorithms::Random, 2 => LoadBalancingAlgorithms::LeastLoaded, 3 => LoadBalancingAlgorithms::PowerOfTwo, 4 => LoadBalancingAlgorithms::Hrw, _ => LoadBalancingAlgorithms::Maglev };
+                let m = match metric % 4 { 0 => None, 1 => Some(LoadMetric::Connections), 2 => Some(LoadMetric::Requests), _ => Some(LoadMetric::ConnectionTime) };
+                self.map.set_load_balancing_policy_for_cluster(&cluster_name(c), a, m);
+                let mc = &mut self.mcs[c as usize];
+                mc.exists = true; mc.algo = algo % 6; mc.memo.clear();
+                self.probe(&format!("policy_{}", POLICIES[(algo % 6) as usize]));
+            }
+            Op::Add { c, id, addr, sticky, weight, backup } => {
+                let b = Backend::new(&format!("b{id}"), addr_of(base, addr), sticky_name(sticky), weight.map(|weight| LoadBalancingParams { weight }), match backup { 0 => None, 1 => Some(false), _ => Some(true) });
+                self.map.add_backend(&cluster_name(c), b);
+                self.mcs[c as usize].exists = true;
+                let existing = self.mcs[c as usize].list.iter().copied().find(|&u| self.mbs[u].addr == addr && self.mbs[u].id == id);
+                match existing {
+                    Some(u) => {
+                        // documented: "the backend already exists, update the configuration while keeping connection retry state"
+                        let m = &mut self.mbs[u];
+                        m.sticky = sticky; m.weight = weight; m.backup = backup == 2;
+                        self.probe("add_updates_in_place");
+                    }
+                    None => {
+                        if self.mcs[c as usize].list.iter().any(|&u| self.mbs[u].id == id) { self.probe("add_same_id_other_address"); }
+                        if self.mcs[c as usize].list.iter().any(|&u| self.mbs[u].addr == addr) { self.probe("add_same_address_other_id"); }
+                        if self.mbs.iter().any(|m| m.cluster == c && !m.present && m.id == id && m.addr == addr) { self.probe("re_add_after_remove"); }
+                        let u = self.new_instance(c, id, addr, sticky, weight, backup == 2);
+                        self.mcs[c as usize].list.push(u);
+                        let w = self.map.backends.get(&cluster_name(c)).and_then(|l| l.backends.last()).map(Rc::downgrade).unwrap_or_default();
+                        self.weak.push(w);
+                    }
+                }
+            }
+            Op::Remove { c, addr } => {
+                let a = addr_of(base, addr);
+                let removed = self.map.remove_backend(&cluster_name(c), &a);
+                let gone: Vec<usize> = self.mcs[c as usize].list.iter().copied().filter(|&u| self.mbs[u].addr == addr).collect();
+                self.mcs[c as usize].list.retain(|u| !gone.contains(u));
+                let mut want: Vec<String> = gone.iter().map(|&u| format!("b{}", self.mbs[u].id)).collect();
+                for &u in &gone {
+                    self.mbs[u].present = false;
+                    if self.conns.iter().any(|k| k.uid == u) { self.probe("removed_with_open_connections"); }
+                }
+                let mut got = removed.clone();
+                want.sort(); got.sort();
+                if want != got { self.viol("membership_mismatch", "remove|returned_ids".into(), format!("remove_backend({a}) returned {removed:?}, model removed {want:?}")); }
+                if !gone.is_empty() { self.probe("remove_effective"); }
+                if gone.len() > 1 { self.probe("remove_drops_several_ids_at_one_address"); }
+            }
+            Op::Health { c, addr, ok } => {
+                let a = addr_of(base, addr);
+                let target = self.first_at(c, addr);
+                let rc = self.map.backends.get_mut(&cluster_name(c)).and_then(|l| l.find_backend(&a).cloned());
+                match (&rc, target) {
+                    (Some(rc), Some(u)) => {
+                        if self.uid_of(rc) != Some(u) { self.viol("membership_mismatch", "health|find_backend".into(), format!("find_backend({a}) is not the first member at that address ({})", self.descr_b(u))); }
+                        let (up, down) = (self.plan.thr_up, self.plan.thr_down);
+                        let tr = if ok { rc.borrow_mut().health.record_success(up) } else { rc.borrow_mut().health.record_failure(down) };
+                        let m = &mut self.mbs[u];
+                        let was = m.healthy;
+                        if ok { m.fails = 0; m.succ += 1; if !m.healthy && m.succ >= up { m.healthy = true; } }
+                        else { m.succ = 0; m.fails += 1; if m.healthy && m.fails >= down { m.healthy = false; } }
+                        let now_h = m.healthy;
+                        if tr != (was != now_h) { self.viol("health_mismatch", format!("transition_flag|{}", if ok { "success" } else { "failure" }), format!("{}: record returned {tr}, model {} -> {}", self.descr_b(u), was, now_h)); }
+                        if was && !now_h { self.probe("health_marked_down"); }
+                        if !was && now_h { self.probe("health_marked_up"); }
+                    }
+                    (None, None) => {}
+                    _ => self.viol("membership_mismatch", "health|find_backend".into(), format!("find_backend({a}) found={} but model member={:?}", rc.is_some(), target)),
+                }
+            }
+            Op::HealthOff { c } => {
+                self.map.set_health_check_config(&cluster_name(c), None);
+                let list = self.mcs[c as usize].list.clone();
+                for u in list {
+                    if !self.mbs[u].healthy { self.probe("health_reset_by_config_removal"); }
+                    let m = &mut self.mbs[u];
+                    m.healthy = true; m.succ = 0; m.fails = 0;
+                }
+            }
+            Op::Advance { ms } => {
+                let before = self.now;
+                let after = before + ms * MS;
+                let crossed = self.mbs.iter().filter(|b| b.present && b.backing_off(before) && !b.backing_off(after)).count();
+                for _ in 0..crossed { self.probe("backoff_window_crossed"); }
+                self.set_now(after);
+                self.h.mix(ms);
+            }
+            Op::Select { c, key, via } => {
+                let cn = cluster_name(c);
+                let mut untracked = false;
+                let got: Option<usize> = if via % 2 == 0 {
+                    match self.map.backend_from_cluster_id_with_key(&cn, key) {
+                        Ok((id, a)) => {
+                            let u = self.mcs[c as usize].list.iter().copied().find(|&u| format!("b{}", self.mbs[u].id) == id && addr_of(base, self.mbs[u].addr) == a);
+                            let u = u.or_else(|| (0..self.mbs.len()).find(|&u| format!("b{}", self.mbs[u].id) == id && addr_of(base, self.mbs[u].addr) == a));
+                            if u.is_none() { untracked = true; }
+                            u
+                        }
+                        Err(_) => None,
+                    }
+                } else {
+                    match self.map.backends.get_mut(&cn).and_then(|l| l.next_available_backend_with_key(key)) {
+                        Some(rc) => { let u = self.uid_of(&rc); if u.is_none() { untracked = true; } u }
+                        None => None,
+                    }
+                };
+                self.judge_lb(c, if via % 2 == 0 { "select_map" } else { "select_list" }, key, got, untracked);
+            }
+            Op::Sticky { c, s } => {
+                let exp = sticky_expect(&self.mcs[c as usize], &self.mbs, s, self.now);
+                let got = self.map.backends.get_mut(&cluster_name(c)).and_then(|l| l.find_sticky(&sticky_name(s).unwrap_or_default()).cloned());
+                let gu = got.as_ref().and_then(|rc| self.uid_of(rc));
+                self.h.mix(gu.map(|u| u as u64 + 1).unwrap_or(0));
+                self.judge_sticky_lookup(c, s, exp, got.is_some(), gu, "find_sticky");
+            }
+            Op::Connect { c, s, net_ok, streams } => self.connect(c, s, net_ok, streams as usize),
+            Op::Outcome { conn, ok } => {
+                let pending: Vec<usize> = (0..self.conns.len()).filter(|&i| self.conns[i].state == CState::Connecting).collect();
+                if pending.is_empty() { return; }
+                let i = pending[conn as usize % pending.len()];
+                let u = self.conns[i].uid;
+                if ok {
+                    {
+                        let mut b = self.conns[i].rc.borrow_mut();
+                        b.failures = 0;
+                        b.set_connection_time(std::time::Duration::from_millis(3));
+                        b.retry_policy.succeed();
+                        b.active_requests += self.conns[i].streams;
+                    }
+                    self.conns[i].state = CState::Connected;
+                    let n = self.conns[i].streams;
+                    let m = &mut self.mbs[u];
+                    m.failures = 0; m.reqs += n;
+                    self.after_succeed(u);
+                    self.probe("connect_established");
+                } else {
+                    {
+                        let mut b = self.conns[i].rc.borrow_mut();
+                        b.failures += 1;
+                        b.retry_policy.fail();
+                    }
+                    self.mbs[u].failures += 1;
+                    self.after_fail(u);
+                    self.probe("connect_failed_async");
+                    self.close_conn(i);
+                }
+            }
+            Op::Stream { conn, start } => {
+                let est: Vec<usize> = (0..self.conns.len()).filter(|&i| self.conns[i].state == CState::Connected).collect();
+                if est.is_empty() { return; }
+                let i = est[conn as usize % est.len()];
+                let u = self.conns[i].uid;
+                if start {
+                    self.conns[i].rc.borrow_mut().active_requests += 1;
+                    self.conns[i].streams += 1;
+                    self.mbs[u].reqs += 1;
+                } else if self.conns[i].streams > 0 {
+                    let mut b = self.conns[i].rc.borrow_mut();
+                    b.active_requests = b.active_requests.saturating_sub(1);
+                    drop(b);
+                    self.conns[i].streams -= 1;
+                    self.mbs[u].reqs -= 1;
+                }
+            }
+            Op::Close { conn } => {
+                if self.conns.is_empty() { return; }
+                let i = conn as usize % self.conns.len();
+                self.close_conn(i);
+            }
+            Op::SetClosing { conn } => {
+                if self.conns.is_empty() { return; }
+                let i = conn as usize % self.conns.len();
+                let u = self.conns[i].uid;
+                if self.mbs[u].st != St::Normal { return; }
+                self.conns[i].rc.borrow_mut().set_closing();
+                self.mbs[u].st = St::Closing;
+                self.closing_used = true;
+                self.probe("set_closing_applied");
+            }
+        }
+    }
+
+    fn judge_sticky_lookup(&mut self, c: u8, s: u8, exp: StickyExp, some: bool, gu: Option<usize>, via: &str) {
+        let pol = self.policy(c);
+        match exp {
+            StickyExp::Fallback => {
+                self.probe("sticky_no_qualifying_holder");
+                if some {
+                    let d = match gu { Some(u) => { let w = why_not(&self.mbs, c, u, Regime::Primary, self.now); format!("{} ({w})", self.descr_b(u)) } None => "unknown backend".into() };
+                    let why = gu.map(|u| if self.mbs[u].sticky != s || !self.mbs[u].present { "not_holder" } else { why_not(&self.mbs, c, u, Regime::Primary, self.now) }).unwrap_or("unknown_backend");
+                    self.viol("ineligible_selected", format!("cookie|{why}"), format!("{via} ({pol}): cookie s{s} resolved to {d} which does not qualify"));
+                }
+            }
+            StickyExp::Must(h) => {
+                self.probe("sticky_holder_qualifies");
+                if gu != Some(h) { self.viol("sticky_ignored", "single_holder".to_string(), format!("{via} ({pol}): cookie s{s}: {} qualifies but lookup gave {:?}", self.descr_b(h), gu.map(|u| self.descr_b(u)))); }
+            }
+            StickyExp::Any(set, fallback_ok) => {
+                self.probe("sticky_ambiguous_cookie");
+                match gu {
+                    Some(u) if set.contains(&u) => {}
+                    None if !some && fallback_ok => {}
+                    _ => self.viol("sticky_ignored", "shared_cookie".to_string(), format!("{via} ({pol}): cookie s{s}: qualifying holders {:?} but lookup gave {:?}", set, gu.map(|u| self.descr_b(u)))),
+                }
+            }
+        }
+    }
+
+    fn connect(&mut self, c: u8, s: u8, net_ok: bool, streams: usize) {
+        let base = self.plan.base;
+        let cn = cluster_name(c);
+        let mode = if net_ok { ConnectMode::Blackhole } else { ConnectMode::Unreachable };
+        crate::world::with_world(|w| { for a in 0..4 { w.topo.insert(addr_of(base, a), mode.clone()); } });
+        let now = self.now;
+        let exp = sticky_expect(&self.mcs[c as usize], &self.mbs, s, now);
+        let before: Vec<(usize, usize)> = self.mcs[c as usize].list.iter().map(|&u| (u, self.mbs[u].failures)).collect();
+        let res = if s > 0 { self.map.backend_from_sticky_session(&cn, &sticky_name(s).unwrap()) } else { self.map.backend_from_cluster_id(&cn) };
+        let via = if s > 0 { "connect_sticky" } else { "connect" };
+        // who was chosen?
+        let mut untracked = false;
+        let (chosen, connected): (Option<usize>, bool) = match &res {
+            Ok((rc, _stream)) => { let u = self.uid_of(rc); if u.is_none() { untracked = true; } (u, true) }
+            Err(_) => {
+                let bumped: Vec<usize> = before.iter().filter(|(u, f)| self.weak[*u].upgrade().map(|rc| rc.borrow().failures == f + 1).unwrap_or(false)).map(|x| x.0).collect();
+                if bumped.len() > 1 { self.viol("counter_mismatch", "failures_bumped_on_several".to_string(), format!("one failed connect bumped `failures` on {bumped:?}")); }
+                (bumped.first().copied(), false)
+            }
+        };
+        if let Err(e) = &res { if let Some(l) = self.log.as_mut() { l.push(format!("  -> Err({e})")); } }
+        // sticky judgement first: if the cookie's backend qualifies it must be the one
+        let by_cookie = match &exp {
+            StickyExp::Must(h) => {
+                self.probe("sticky_holder_qualifies");
+                if chosen != Some(*h) {
+                    let pol = self.policy(c);
+                    self.viol("sticky_ignored", "single_holder".to_string(), format!("{via} ({pol}): cookie s{s}: {} qualifies but the session went to {:?}", self.descr_b(*h), chosen.map(|u| self.descr_b(u))));
+                }
+                true
+            }
+            StickyExp::Any(set, fallback_ok) => {
+                self.probe("sticky_ambiguous_cookie");
+                if chosen.map_or(false, |u| set.contains(&u)) { true }
+                else if *fallback_ok { false }
+                else {
+                    let pol = self.policy(c);
+                    self.viol("sticky_ignored", "shared_cookie".to_string(), format!("{via} ({pol}): cookie s{s}: every holder {:?} qualifies but the session went to {:?}", set, chosen.map(|u| self.descr_b(u))));
+                    true
+                }
+            }
+            StickyExp::Fallback => { if s > 0 { self.probe("sticky_no_qualifying_holder"); } false }
+        };
+        let cookie_holder_unqualified = !by_cookie && s > 0 && chosen.map_or(false, |u| self.mbs[u].cluster == c && self.mbs[u].present && self.mbs[u].sticky == s && !allowed(&self.mcs[c as usize], &self.mbs, now).0.contains(&u));
+        if by_cookie {
+            self.h.mix(chosen.map(|u| u as u64 + 1).unwrap_or(0));
+        } else if cookie_holder_unqualified {
+            let u = chosen.unwrap();
+            let why = why_not(&self.mbs, c, u, Regime::Primary, now);
+            let pol = self.policy(c);
+            self.viol("ineligible_selected", format!("cookie|{why}"), format!("{via} ({pol}): cookie s{s} sent the session to {} which does not qualify", self.descr_b(u)));
+        } else {
+            self.judge_lb(c, via, None, chosen, untracked);
+        }
+        // network outcome
+        match (chosen, connected) {
+            (Some(u), true) => {
+                if !net_ok { self.viol("harness", "connect_ok_on_unreachable".into(), "try_connect succeeded although the simulated network is unreachable".into()); }
+                let Ok((rc, stream)) = res else { return };
+                drop(stream);
+                if self.mbs[u].st == St::Normal { self.mbs[u].conns += 1; }
+                self.conns.push(Conn { uid: u, rc, state: CState::Connecting, streams });
+                self.probe("connect_in_progress");
+            }
+            (Some(u), false) => {
+                if net_ok { self.viol("harness", "connect_failed_on_reachable".into(), "try_connect failed although the simulated network accepts".into()); }
+                self.mbs[u].failures += 1;
+                self.after_fail(u);
+                self.probe("connect_failed_sync");
+            }
+            (None, true) => {}
+            (None, false) => { self.probe("connect_no_backend"); }
+        }
+    }
+
+    fn close_conn(&mut self, i: usize) {
+        let k = self.conns.remove(i);
+        let u = k.uid;
+        let ret = {
+            let mut b = k.rc.borrow_mut();
+            if k.state == CState::Connected { b.active_requests = b.active_requests.saturating_sub(k.streams); }
+            b.dec_connections()
+        };
+        if k.state == CState::Connected { self.mbs[u].reqs -= k.streams.min(self.mbs[u].reqs); }
+        let m = &mut self.mbs[u];
+        let want: Option<usize> = match m.st {
+            St::Normal => { m.conns = m.conns.saturating_sub(1); Some(m.conns) }
+            St::Closing => {
+                m.conns = m.conns.saturating_sub(1);
+                if m.conns == 0 { m.st = St::Closed; *self.probes.entry("closing_backend_retired".into()).or_insert(0) += 1; None } else { Some(m.conns) }
+            }
+            St::Closed => None,
+        };
+        if ret != want { self.viol("counter_mismatch", "dec_connections_return".to_string(), format!("{}: dec_connections returned {ret:?}, model {want:?}", self.descr_b(u))); }
+        drop(k);
+    }
+
+    /// compare everything observable with the model
+    fn compare(&mut self, fin: bool) {
+        let now = self.now;
+        // membership and order of every cluster list
+        for c in 0..self.mcs.len() {
+            let cn = cluster_name(c as u8);
+            let real: Option<Vec<Option<usize>>> = self.map.backends.get(&cn).map(|l| l.backends.iter().map(|rc| self.uid_of(rc)).collect());
+            let model: Vec<Option<usize>> = self.mcs[c].list.iter().map(|&u| Some(u)).collect();
+            match real {
+                None => if self.mcs[c].exists { self.viol("membership_mismatch", "cluster_missing".to_string(), format!("cluster {cn} has no backend list")); },
+                Some(r) => if r != model { self.viol("membership_mismatch", "list".to_string(), format!("cluster {cn}: backend list {r:?}, model {model:?}")); },
+            }
+        }
+        for u in 0..self.mbs.len() {
+            let handles = self.conns.iter().filter(|k| k.uid == u).count();
+            let rc = self.weak[u].upgrade();
+            let m = self.mbs[u].clone();
+            let should_live = m.present || handles > 0;
+            match rc {
+                None => {
+                    if should_live { self.viol("lifecycle_mismatch", "dropped_early".to_string(), format!("{} was dropped while still a member or in use by {handles} connections", self.descr_b(u))); }
+                }
+                Some(rc) => {
+                    // (the upgrade itself holds one reference)
+                    if !should_live {
+                        self.viol("lifecycle_mismatch", "not_retired_when_drained".to_string(), format!("{} is removed and drained but still referenced ({} strong refs)", self.descr_b(u), Rc::strong_count(&rc) - 1));
+                    }
+                    let b = rc.borrow();
+                    let mut bad: Vec<(&'static str, &'static str, String)> = Vec::new();
+                    if b.active_connections > (1usize << 31) { bad.push(("counter_wrapped", "active_connections", format!("{}", b.active_connections))); }
+                    if b.active_requests > (1usize << 31) { bad.push(("counter_wrapped", "active_requests", format!("{}", b.active_requests))); }
+                    if b.active_connections != m.conns { bad.push(("counter_mismatch", "active_connections", format!("{} != model {}", b.active_connections, m.conns))); }
+                    if b.active_requests != m.reqs { bad.push(("counter_mismatch", "active_requests", format!("{} != model {}", b.active_requests, m.reqs))); }
+                    if b.failures != m.failures { bad.push(("counter_mismatch", "failures", format!("{} != model {}", b.failures, m.failures))); }
+                    let st = match b.status { BackendStatus::Normal => St::Normal, BackendStatus::Closing => St::Closing, BackendStatus::Closed => St::Closed };
+                    if st != m.st { bad.push(("lifecycle_mismatch", "status", format!("{:?} != model {:?}", st, m.st))); }
+                    if b.health.is_healthy() != m.healthy { bad.push(("health_mismatch", "status", format!("{:?} != model healthy={}", b.health.status, m.healthy))); }
+                    if b.health.consecutive_successes != m.succ || b.health.consecutive_failures != m.fails { bad.push(("health_mismatch", "streaks", format!("{}/{} != model {}/{}", b.health.consecutive_successes, b.health.consecutive_failures, m.succ, m.fails))); }
+                    if b.backup != m.backup || b.sticky_id != sticky_name(m.sticky) || b.load_balancing_parameters.as_ref().map(|p| p.weight) != m.weight { bad.push(("membership_mismatch", "configuration", format!("backup={} sticky={:?} weight={:?}", b.backup, b.sticky_id, b.load_balancing_parameters))); }
+                    // the code's own predicate against the property's predicate
+                    if m.present && b.can_open() != m.eligible(now) { bad.push(("predicate_mismatch", "can_open", format!("can_open()={} but model eligible={}", b.can_open(), m.eligible(now)))); }
+                    let down = b.retry_policy.is_down();
+                    if down != (m.tries >= MAX_TRIES) { bad.push(("retry_mismatch", "is_down", format!("is_down()={down}, model tries {}", m.tries))); }
+                    if m.present && b.is_available() != (m.healthy && m.st == St::Normal && m.tries < MAX_TRIES) { bad.push(("predicate_mismatch", "is_available", format!("is_available()={}", b.is_available()))); }
+                    drop(b);
+                    drop(rc);
+                    if m.tries >= MAX_TRIES { self.probe("observed_retry_budget_exhausted"); }
+                    for (class, field, d) in bad { let dd = format!("{}: {field}: {d}", self.descr_b(u)); self.viol(class, field.to_string(), dd); }
+                    if fin { self.check_retry_now(u); }
+                }
+            }
+            if fin && (m.conns != 0 || m.reqs != 0) { self.viol("harness", "model_not_drained".into(), format!("model counters of #{u} not zero at the end")); }
+        }
+    }
+}
+
+pub struct Outcome {
+    pub violations: Vec<Violation>,
+    pub hash: u64,
+    pub probes: BTreeMap<String, u64>,
+    pub nontrivial: bool,
+    pub log: Vec<String>,
+    pub virtual_ns: u64,
+    pub stats: crate::world::Stats,
+}
+
+pub fn execute(plan: &Plan, verbose: bool) -> Outcome {
+    let plan = plan.clone();
+    crate::netsim::on_fresh_thread(move || {
+        let mut w = World::new(plan.seed, SchedCfg::default());
+        World::install(&mut w);
+        let start = crate::world::with_world(|w| w.now).unwrap();
+        let r = std::panic::catch_unwind(std::panic::AssertUnwindSafe(|| {
+            let mut ex = Exec {
+                plan: &plan, map: BackendMap::new(), mbs: Vec::new(), weak: Vec::new(), mcs: vec![MC { algo: 6, ..Default::default() }, MC { algo: 6, ..Default::default() }],
+                conns: Vec::new(), now: start, v: Vec::new(), h: TraceHash::new(), probes: BTreeMap::new(), closing_used: false, judged_with_exclusion: 0,
+                log: if verbose { Some(Vec::new()) } else { None }, cur_op: "init", ops_done: 0,
+            };
+            let mut panicked: Option<(usize, String)> = None;
+            let mut stopped = false;
+            for (i, op) in plan.ops.iter().enumerate() {
+                let op = normalise(op);
+                if let Some(l) = ex.log.as_mut() { l.push(format!("[{:>9.3}s] #{i} {:?}", (ex.now - start) as f64 / 1e9, op)); }
+                let r = std::panic::catch_unwind(std::panic::AssertUnwindSafe(|| ex.step(&op)));
+                if let Err(e) = r {
+                    let msg = e.downcast_ref::<String>().cloned().or_else(|| e.downcast_ref::<&str>().map(|s| s.to_string())).unwrap_or_else(|| "panic".into());
+                    panicked = Some((i, msg));
+                    break;
+                }
+                ex.compare(false);
+                ex.ops_done += 1;
+                if ex.log.is_some() {
+                    let mut s = String::from("    state:");
+                    for u in 0..ex.mbs.len() { if ex.mbs[u].present || ex.conns.iter().any(|k| k.uid == u) { s += &format!(" {} conns={} reqs={} fails={}", ex.descr_b(u), ex.mbs[u].conns, ex.mbs[u].reqs, ex.mbs[u].failures); } }
+                    if let Some(l) = ex.log.as_mut() { l.push(s); }
+                }
+                // model and code have diverged: later operations would only report consequences
+                if !ex.v.is_empty() { stopped = true; break; }
+            }
+            if let Some((i, msg)) = panicked {
+                let c = match &plan.ops[i] { Op::Policy { c, .. } | Op::Add { c, .. } | Op::Remove { c, .. } | Op::Health { c, .. } | Op::HealthOff { c } | Op::Select { c, .. } | Op::Sticky { c, .. } | Op::Connect { c, .. } => *c % 2, _ => 0 };
+                let key = format!("{}|{}", op_name(&plan.ops[i]), ex.policy(c));
+                ex.viol("panic", key, format!("operation #{i} {:?} panicked: {msg}", plan.ops[i]));
+            } else if !stopped {
+                // traffic ends: every connection is closed, then every counter must be back to zero
+                ex.cur_op = "drain";
+                while !ex.conns.is_empty() { ex.close_conn(0); }
+                ex.compare(true);
+                for u in 0..ex.mbs.len() {
+                    if let Some(rc) = ex.weak[u].upgrade() {
+                        let (ac, ar) = { let b = rc.borrow(); (b.active_connections, b.active_requests) };
+                        drop(rc);
+                        if ac != 0 || ar != 0 { let d = format!("{}: active_connections={ac} active_requests={ar} after all traffic ended", ex.descr_b(u)); ex.viol("counter_not_zero_at_end", if ac != 0 { "active_connections".into() } else { "active_requests".into() }, d); }
+                        ex.h.mix(ac as u64); ex.h.mix(ar as u64);
+                    }
+                }
+            }
+            let nontrivial = ex.judged_with_exclusion > 0;
+            let virtual_ns = ex.now - start;
+            ex.h.mix(ex.v.len() as u64);
+            ex.probes.insert("operations_applied".into(), ex.ops_done);
+            Outcome { violations: std::mem::take(&mut ex.v), hash: ex.h.0, probes: std::mem::take(&mut ex.probes), nontrivial, log: ex.log.take().unwrap_or_default(), virtual_ns, stats: Default::default() }
+        }));
+        World::uninstall();
+        match r {
+            Ok(mut o) => { o.stats = w.stats.clone(); o.stats.virtual_ns = o.virtual_ns; o }
+            Err(_) => Outcome { violations: vec![Violation::new("panic", "harness", "panic outside an operation")], hash: 0, probes: BTreeMap::new(), nontrivial: false, log: Vec::new(), virtual_ns: 0, stats: Default::default() },
+        }
+    })
+}
+
+// ------------------------------------------------------------------------------------- property
+
 impl Property for C12 {
     fn id(&self) -> &'static str { "C12" }
-    fn runs(&self, _tier: Tier) -> u64 { 0 }
-    fn gen_plan(&self, _seed: u64, _tier: Tier) -> Value { Value::Null }
-    fn run_plan(&self, _plan: &Value) -> RunReport { RunReport { harness_error: Some("not implemented".into()), ..Default::default() } }
-    fn descr(&self) -> Descr { Descr { level: "exploration", rule: "", assumptions: vec![], real: vec![], stub: vec![], not_covered: vec![] } }
+    fn runs(&self, tier: Tier) -> u64 { match tier { Tier::Quick => 250_000, Tier::Thorough => 4_000_000 } }
+    fn gen_plan(&self, seed: u64, tier: Tier) -> Value { serde_json::to_value(generate(seed, tier)).unwrap() }
+    fn run_plan(&self, plan: &Value) -> RunReport {
+        let p: Plan = match serde_json::from_value(plan.clone()) { Ok(p) => p, Err(e) => return RunReport { harness_error: Some(format!("bad plan: {e}")), ..Default::default() } };
+        let o = execute(&p, false);
+        let mut rep = RunReport { seed: p.seed, family: if p.family.starts_with("enum:") { p.family.clone() } else { family_of(&p) }, trace_hash: o.hash, nontrivial: o.nontrivial, probes: o.probes, summary: summarize(&p), ..Default::default() };
+        rep.stats = o.stats;
+        for v in o.violations {
+            if v.class == "harness" { rep.harness_error = Some(format!("{}: {}", v.key, v.detail)); } else { rep.violations.push(v); }
+        }
+        rep
+    }
+    fn shrink(&self, plan: &Value) -> Vec<Value> {
+        let Ok(p) = serde_json::from_value::<Plan>(plan.clone()) else { return vec![] };
+        let mut out: Vec<Plan> = Vec::new();
+        let n = p.ops.len();
+        // drop halves, quarters, then single operations
+        let mut chunk = n / 2;
+        while chunk >= 2 {
+            let mut i = 0;
+            while i < n { let mut q = p.clone(); q.ops.drain(i..(i + chunk).min(n)); out.push(q); i += chunk; }
+            chunk /= 2;
+        }
+        for i in (0..n).rev() { let mut q = p.clone(); q.ops.remove(i); out.push(q); }
+        // simplify arguments
+        for i in 0..n {
+            let mut q = p.clone();
+            let changed = match &mut q.ops[i] {
+                Op::Add { sticky, weight, backup, .. } => {
+                    if weight.is_some() { *weight = None; true } else if *backup == 1 { *backup = 0; true } else if *sticky != 0 && !p.ops.iter().any(|o| matches!(o, Op::Sticky { .. } | Op::Connect { s: 1.., .. })) { *sticky = 0; true } else { false }
+                }
+                Op::Advance { ms } => { if *ms > 1000 && *ms % 1000 != 0 { *ms = *ms / 1000 * 1000; true } else { false } }
+                Op::Select { key: Some(k), .. } if *k > 2 => { *k = 1; true }
+                Op::Select { via, .. } if *via != 1 => { *via = 1; true }
+                Op::Connect { streams, .. } if *streams > 0 => { *streams = 0; true }
+                Op::Policy { metric, .. } if *metric != 0 => { *metric = 0; true }
+                _ => false,
+            };
+            if changed { out.push(q); }
+        }
+        if p.thr_up != 1 || p.thr_down != 1 { let mut q = p.clone(); q.thr_up = 1; q.thr_down = 1; out.push(q); }
+        out.into_iter().map(|mut q| { q.family = family_of(&q); serde_json::to_value(q).unwrap() }).collect()
+    }
+    fn enumerated(&self, _tier: Tier) -> Vec<Value> {
+        // systematic core scenarios for every policy (fault enumeration): health cascade, back-off window edges,
+        // cookies, removal with open connections and re-add, weights
+        let k = [1u64, 65537, u64::MAX];
+        let add = |id: u8, addr: u8, sticky: u8, weight: Option<i32>, backup: u8| Op::Add { c: 0, id, addr, sticky, weight, backup };
+        let sel = |key: Option<u64>, via: u8| Op::Select { c: 0, key, via };
+        let mut out = Vec::new();
+        for algo in 0..6u8 {
+            let pol = Op::Policy { c: 0, algo, metric: 0 };
+            let scenarios: Vec<Vec<Op>> = vec![
+                vec![pol.clone(), add(0, 0, 0, None, 0), add(1, 1, 0, None, 2), sel(Some(k[0]), 0), Op::Health { c: 0, addr: 0, ok: false }, sel(Some(k[0]), 0), sel(Some(k[0]), 1),
+                     Op::Health { c: 0, addr: 1, ok: false }, sel(Some(k[0]), 0), sel(None, 1), Op::Health { c: 0, addr: 0, ok: true }, sel(Some(k[0]), 0), Op::HealthOff { c: 0 }, sel(Some(k[0]), 1)],
+                vec![pol.clone(), add(0, 0, 0, None, 0), add(1, 1, 0, None, 0), Op::Connect { c: 0, s: 0, net_ok: false, streams: 1 }, sel(Some(k[1]), 0), sel(Some(k[1]), 0), Op::Advance { ms: 999 }, sel(Some(k[1]), 1),
+                     Op::Advance { ms: 1 }, sel(Some(k[1]), 1), Op::Connect { c: 0, s: 0, net_ok: false, streams: 0 }, Op::Connect { c: 0, s: 0, net_ok: false, streams: 0 }, sel(None, 0), Op::Connect { c: 0, s: 0, net_ok: true, streams: 0 },
+                     Op::Advance { ms: 64000 }, sel(Some(k[1]), 0), Op::Connect { c: 0, s: 0, net_ok: true, streams: 2 }, Op::Outcome { conn: 0, ok: true }, Op::Close { conn: 0 }],
+                vec![pol.clone(), add(0, 0, 1, None, 0), add(1, 1, 2, None, 0), Op::Connect { c: 0, s: 1, net_ok: true, streams: 1 }, Op::Outcome { conn: 0, ok: true }, Op::Health { c: 0, addr: 0, ok: false }, Op::Sticky { c: 0, s: 1 },
+                     Op::Connect { c: 0, s: 1, net_ok: true, streams: 1 }, Op::Remove { c: 0, addr: 0 }, Op::Connect { c: 0, s: 1, net_ok: true, streams: 0 }, Op::Sticky { c: 0, s: 2 }, Op::Close { conn: 0 }, Op::Close { conn: 0 }, Op::Close { conn: 0 }],
+                vec![pol.clone(), add(0, 0, 0, None, 0), Op::Connect { c: 0, s: 0, net_ok: true, streams: 1 }, Op::Outcome { conn: 0, ok: true }, Op::Remove { c: 0, addr: 0 }, sel(Some(k[2]), 0), sel(None, 1), add(0, 0, 0, None, 0),
+                     Op::Connect { c: 0, s: 0, net_ok: true, streams: 1 }, Op::Outcome { conn: 0, ok: false }, sel(Some(k[2]), 0), Op::Stream { conn: 0, start: true }, Op::Close { conn: 0 }, Op::Advance { ms: 1000 }, sel(Some(k[2]), 1)],
+                vec![pol.clone(), add(0, 0, 0, Some(255), 0), add(1, 1, 0, Some(1), 0), add(2, 2, 0, Some(0), 0), sel(Some(k[0]), 0), sel(Some(k[1]), 0), sel(Some(k[2]), 0), sel(Some(k[0]), 1), sel(Some(k[1]), 1), sel(Some(k[2]), 1),
+                     Op::Health { c: 0, addr: 0, ok: false }, sel(Some(k[0]), 0), sel(Some(k[1]), 0), sel(Some(k[2]), 0), Op::Remove { c: 0, addr: 1 }, sel(Some(k[0]), 0), sel(Some(k[1]), 0), sel(Some(k[2]), 0), add(0, 0, 0, Some(1), 2), sel(Some(k[0]), 1)],
+            ];
+            for (i, ops) in scenarios.into_iter().enumerate() {
+                let mut p = Plan { seed: 0xC12_0000 + algo as u64 * 16 + i as u64, family: String::new(), base: 1, thr_up: 1, thr_down: 1, ops };
+                p.family = format!("enum:{}", family_of(&p));
+                out.push(serde_json::to_value(p).unwrap());
+            }
+        }
+        out
+    }
+    fn debug_plan(&self, plan: &Value) -> String {
+        let Ok(p) = serde_json::from_value::<Plan>(plan.clone()) else { return "bad plan".into() };
+        let o = execute(&p, true);
+        let mut s = summarize(&p) + "\n";
+        for l in &o.log { s += l; s.push('\n'); }
+        for v in &o.violations { s += &format!("VIOLATION {} {}: {}\n", v.class, v.key, v.detail); }
+        s
+    }
+    fn descr(&self) -> Descr {
+        Descr {
+            level: "exploration",
+            rule: "seeded operation histories (swarm: 1-2 clusters, 1-4 ids x 1-4 addresses, 0-2 cookie values, per-plan operation mix, weights incl. 0/negative/extreme, six policies, virtual-time steps of 1 ms..64 s) on one BackendMap; plus 30 enumerated core scenarios (5 per policy: health cascade, back-off window edges, cookies, removal with open connections + re-add, weights); a run is non-trivial when >=1 selection was judged while >=1 member of that cluster was outside the allowed set; distinct = distinct hashes of (operations with arguments, selections, final counters); a run stops at its first violating operation",
+            assumptions: vec![
+                "release semantics (debug assertions off)",
+                "connect/stream/close bookkeeping on Backend (failures, retry_policy.fail/succeed, active_requests +/-) is replayed by the harness the way protocol/mux/mod.rs does it; only inc/dec_connections, try_connect, selection, membership, health and retry code are the real thing",
+                "health-check results and removal are address keyed as in health_check.rs / server.rs (first member at the address; every member at the address)",
+                "several members sharing one cookie value is treated as ambiguous configuration: any qualifying holder, or normal selection when the holders disagree, is accepted",
+                "Maglev: a key may move when the full member set (not only the eligible set) changes, as documented for the table rebuild",
+            ],
+            real: vec!["sozu_lib::backends::{BackendMap, BackendList, Backend, HealthState}", "sozu_lib::load_balancing::* (all six policies, seeded rand)", "sozu_lib::retry::ExponentialBackoffPolicy (virtual clock, seeded jitter)", "mio::net::TcpStream::connect through the simulated libc"],
+            stub: vec!["clock", "entropy", "network (connect answers only)", "sessions / mux bookkeeping (replayed by the harness)", "health checker (results injected)"],
+            not_covered: vec!["which mock backend receives bytes end-to-end and QueryMetrics counters (netsim traffic tier)", "mux/kawa_h1/tcp session code that calls into BackendMap", "load-quality of least_loaded / power_of_two choices (only membership in the allowed set is judged)"],
+        }
+    }
 }
